@@ -1551,7 +1551,13 @@ func (m *Model) CheckStats(st queue.Stats, now time.Time) []Violation {
 	}
 	// a bucket left out is no larger than any bucket listed (the listing is a "top" list); with fewer
 	// buckets than the list has room for (the list never held more than the buckets there are) none is left out
-	for k, a := range buckets {
+	bkeys := make([]string, 0, len(buckets))
+	for k := range buckets {
+		bkeys = append(bkeys, k)
+	}
+	sort.Strings(bkeys)
+	for _, k := range bkeys {
+		a := buckets[k]
 		if !seen[k] && (len(st.TopQueued) == 0 || a.n > minListed) {
 			vs = append(vs, viol("C13.stats.bucket", "C13", "Stats().TopQueued (%d entries, smallest %d) leaves out bucket %q with %d queued messages", len(st.TopQueued), minListed, strings.ReplaceAll(k, "\x00", "|"), a.n))
 			break
